@@ -721,7 +721,7 @@ def runAuto (o : RmOrder) (fts : List Fault) : Nat → Cfg → List Op → RunRe
         | none => ⟨c, log, false⟩
       | some .skip =>
         match step c (failOf a) with
-        | some c' => runAuto o (fts.filter fun f => !(f.k == log.length && f.kind == .skip)) fuel c' log
+        | some c' => runAuto o (fts.erase ⟨log.length, .skip⟩) fuel c' log
         | none => ⟨c, log, false⟩
       | some .dieAfter =>
         match step c a with
